@@ -77,6 +77,23 @@ fn pull_with<I: Iterator<Item = Entry>>(mut it: I, c: Cancel, pulled: &mut Vec<K
     }
 }
 
+/// What a caller's callback may legitimately do while an operation of one object is in progress:
+/// use *other* objects and the parser on the same thread. Panics (an ordinary panic, reported as a
+/// panic of the operation) if those nested uses misbehave — the library would not be re-entrant.
+pub fn nested_activity() {
+    let mut o = Object::new();
+    o.push(Key::from("n"), Value::Null);
+    o.push(Key::from("m"), Value::Boolean(true));
+    o.push(Key::from("n"), Value::Boolean(false));
+    o.push_front(Key::from("z"), Value::Null);
+    let removed: Vec<Entry> = o.remove("n").collect();
+    if removed.len() != 2 || o.len() != 2 || o.contains_key("n") || o.index_of("m") != Some(1) || o.index_of("z") != Some(0) { panic!("object operations nested inside a callback of another object's operation misbehaved"); }
+    match Value::parse_str("{\"n\":[1,2],\"n\":{}}") {
+        Ok((Value::Object(p), _)) if p.len() == 2 && p.indexes_of("n").count() == 2 => {}
+        _ => panic!("a parse nested inside a callback of an object operation misbehaved"),
+    }
+}
+
 pub enum Applied { Ok(Res), Panicked(String) }
 
 /// Apply one operation to the real objects. Panics are contained; the deliberate `SimUnwind`
@@ -129,7 +146,7 @@ pub fn apply_real(op: &Op, regs: &mut [Object; REGISTERS], maps: &mut [Option<Co
                 maps[*r] = Some(map);
                 Res::Unit
             }
-            Op::ExtendEntries { r, es } => { regs[*r].extend(es.iter().map(|(k, v)| Entry::new(mk_key(k.as_str(), salt + k.len()), v.build()))); Res::Unit }
+            Op::ExtendEntries { r, es } => { regs[*r].extend(es.iter().map(|(k, v)| { if salt % 3 == 0 { nested_activity(); } Entry::new(mk_key(k.as_str(), salt + k.len()), v.build()) })); Res::Unit }
             Op::ExtendPairs { r, es } => { regs[*r].extend(es.iter().map(|(k, v)| (mk_key(k.as_str(), salt + k.len()), v.build()))); Res::Unit }
             Op::GetOrInsertPanicking { r, k, mutable } => {
                 // the caller's default closure fails: when the key is present it must not even be called
@@ -172,12 +189,12 @@ pub fn apply_real(op: &Op, regs: &mut [Object; REGISTERS], maps: &mut [Option<Co
             }),
             Op::GetOrInsertWith { r, k, v } => {
                 let mut called = false;
-                let value = regs[*r].get_or_insert_with(k.as_str(), || { called = true; v.build() }).clone();
+                let value = regs[*r].get_or_insert_with(k.as_str(), || { called = true; if salt % 2 == 0 { nested_activity(); } v.build() }).clone();
                 Res::Got { value, called }
             }
             Op::GetMutOrInsertWith { r, k, v, set } => {
                 let mut called = false;
-                let slot = regs[*r].get_mut_or_insert_with(k.as_str(), || { called = true; v.build() });
+                let slot = regs[*r].get_mut_or_insert_with(k.as_str(), || { called = true; if salt % 2 == 0 { nested_activity(); } v.build() });
                 let value = slot.clone();
                 if let Some(s) = set { *slot = s.build(); }
                 Res::Got { value, called }
